@@ -368,6 +368,10 @@ func (s *session) judge(of *offer, out outcome, hookBefore int, a *attemptRec) {
 		// already reported by the guard; the store state is examined below as for a rejection
 		out.accepted = false
 	}
+	if !of.Ref.Valid() && out.accepted {
+		s.viol("accepted-malformed-name/"+s.site(), "offer under the malformed name %q was accepted: %s", of.RefStr, out)
+		return
+	}
 	hookDelta := 0
 	if of.Ref.Valid() {
 		hookDelta = s.mon.hooks(of.Ref) - hookBefore
